@@ -83,7 +83,7 @@ func (c *MJBodyComponent) Render(w io.StringWriter) error {
 	}
 
 	if title := strings.TrimSpace(c.RenderOpts.Title); title != "" {
-		bodyDiv.AddAttribute(constants.AttrAriaLabel, title)
+		bodyDiv.AddAttribute(constants.AttrAriaLabel, htmlEscape(title))
 	}
 
 	if classAttr != "" {
